@@ -245,7 +245,7 @@ Record awstate := mkAW {
   aw_peak : nat
 }.
 
-Inductive awerr := AwEHeader | AwECreate.
+Inductive awerr := AwEHeader | AwECreate | AwEWrite.   (* AwEWrite: the write to the entry's file failed *)
 Inductive awres := AwOk (n : nat) (st : awstate) | AwErr (e : awerr) (st : awstate).
 
 (* one call of Write(p).  [fixed] = the previous file is closed before the next entry is
@@ -316,6 +316,45 @@ Definition aw_close (st : awstate) : awstate :=
 
 Definition aw_writer_run (fixed : bool) (ws : list (list byte)) : awall := aw_run fixed aw_init ws.
 Definition writer_unfixed := aw_writer_run false.
+
+(* ---- a destination that fails: [full h] = every write to the file at h fails (ENOSPC, EIO, a
+   quota; /dev/full in the correspondence run).  file.Write returns (0, err) and Write hands that
+   on: `n, err := f.file.Write(p[:m]); f.left -= n; return n, err` - an ERROR outcome with nothing
+   consumed and the state unchanged, never (0, nil), on which writeAll would call Write again with
+   the same bytes for ever. *)
+Variable full : apath -> bool.
+
+Definition aw_write_f (fixed : bool) (st : awstate) (p : list byte) : awres :=
+  match (0 <? aw_left st)%Z, aw_file st with
+  | true, Some h => if full h && nonempty p then AwErr AwEWrite st else aw_write fixed st p
+  | _, _ => aw_write fixed st p
+  end.
+
+Fixpoint aw_wa_f (fuel : nat) (fixed : bool) (st : awstate) (data : list byte) : awall :=
+  match data with
+  | [] => AwDone st
+  | _ :: _ =>
+    match fuel with
+    | O => AwFuel
+    | S f =>
+      match aw_write_f fixed st data with
+      | AwErr e st' => AwFail e st'
+      | AwOk n st' => aw_wa_f f fixed st' (skipn n data)
+      end
+    end
+  end.
+Definition aw_write_all_f (fixed : bool) (st : awstate) (data : list byte) : awall :=
+  aw_wa_f (length data) fixed st data.
+Fixpoint aw_run_f (fixed : bool) (st : awstate) (ws : list (list byte)) : awall :=
+  match ws with
+  | [] => AwDone st
+  | w :: r =>
+    match aw_write_all_f fixed st w with
+    | AwDone st' => aw_run_f fixed st' r
+    | x => x
+    end
+  end.
+Definition aw_writer_run_f (fixed : bool) (ws : list (list byte)) : awall := aw_run_f fixed aw_init ws.
 
 (* what is assumed of the header coding, for the entries at hand only: the writer's decoder
    inverts the reader's encoder, and an encoded header contains no newline *)
